@@ -552,3 +552,41 @@ def write_mwfn(m):
         out += reals(coefs)
         out.append(" ")
     return "\n".join(out) + "\n"
+
+
+# ---------------------------------------------------------------------------------------- GAMESS punch
+# (PC) GAMESS / Firefly PUNCH file as written by runtyp=optimize/hessian jobs: $DATA group (title, symmetry, per atom a line
+# "name charge x y z" followed by indented basis lines, closed by " $END"), the block "COORDINATES OF SYMMETRY UNIQUE ATOMS
+# (ANGS)", $GRAD group (E= line, per atom "name charge gx gy gz"), $HESS group written with FORMAT(I2,I3,1P,5E15.8): the row
+# counter is printed MOD 100, each row of 3N numbers takes ceil(3N/5) lines; "ATOMIC MASSES" in amu, five per line.
+def write_gamess_punch(m):
+    """m: title, atoms [(Z, x, y, z) angstrom], energy, gradient (natom x 3), hessian (3N x 3N), masses (amu)."""
+    out = ["$DATA", m["title"], "C1       0"]
+    for z, x, y, zz in m["atoms"]:
+        out.append(f"{NUM2SYM[z].upper():<10s}{float(z):5.1f}{x:18.10f}{y:18.10f}{zz:18.10f}")
+        out += ["   S          1", "     1         0.5000000000  1.00000000", "           "]
+    out.append(" $END      ")
+    out.append("-------------------- DATA FROM NSERCH=   0 --------------------")
+    out.append(" COORDINATES OF SYMMETRY UNIQUE ATOMS (ANGS)")
+    out.append("   ATOM   CHARGE       X              Y              Z")
+    out.append(" ------------------------------------------------------------")
+    for z, x, y, zz in m["atoms"]:
+        out.append(f" {NUM2SYM[z].upper():<10s}{float(z):5.1f}{x:15.10f}{y:15.10f}{zz:15.10f}")
+    out.append(" $GRAD")
+    out.append(f"E= {m['energy']:19.10f}  GMAX=   0.0000338  GRMS=   0.0000154")
+    for (z, _x, _y, _z), g in zip(m["atoms"], m["gradient"]):
+        out.append(f"{NUM2SYM[z].upper():<10s}{float(z):5.0f}.{g[0]:20.10E}{g[1]:20.10E}{g[2]:20.10E}")
+    out.append(" $END")
+    out.append(" $HESS")
+    out.append(f"ENERGY IS {m['energy']:19.10f} E(NUC) IS      273.9207388851")
+    n3 = 3 * len(m["atoms"])
+    for i in range(n3):
+        row = m["hessian"][i]
+        for k, c0 in enumerate(range(0, n3, 5)):
+            out.append(f"{(i + 1) % 100:2d}{(k + 1) % 1000:3d}" + "".join(f"{v:15.8E}" for v in row[c0:c0 + 5]))
+    out.append(" $END")
+    out.append("ATOMIC MASSES")
+    for c0 in range(0, len(m["masses"]), 5):
+        out.append("".join(f"{w:12.5f}" for w in m["masses"][c0:c0 + 5]))
+    out.append("MODE    1   FREQUENCY=   2.35182 (CM**-1)")
+    return "\n".join(out) + "\n"
